@@ -131,7 +131,12 @@ def run(chk):
             alg, digits, period = "sha1", 6, 30
             totp = TOTP(key=key, format="raw")
         else:
-            totp = TOTP(key=key, format="raw", alg=alg, digits=digits, period=period)
+            try:
+                totp = TOTP(key=key, format="raw", alg=alg, digits=digits, period=period)
+            except Exception as ex:
+                chk.violation(f"construct:{type(ex).__name__}", f"TOTP(alg={alg!r}, digits={digits}, period={period}) - admissible settings - raised {type(ex).__name__}: {ex}",
+                              {"alg": alg, "digits": digits, "period": period})
+                continue
         times = [0, 1, period - 1, period, period + 1, 59, 1111111109, 1234567890, 2000000000, 2 ** 31 - 1, 2 ** 31, 2 ** 32 - 1, 2 ** 32,
                  20000000000, 2 ** 40 - 1, 2 ** 40]
         k = rnd.randrange(1, 2 ** 36 // period)
